@@ -173,7 +173,11 @@ TExecAborted == /\ Ev.e = "ExecAborted" /\ xst' = [xst EXCEPT ![Ev.x] = "aborted
 \* a blocking execute() of a coroutine payload issued from inside a payload of the SAME
 \* flavour cannot be served (its own loop thread would have to wait for itself): the framework
 \* refuses it with an exception and the payload is never started
-TExecRefused == /\ Ev.e = "ExecRefused" /\ xst' = [xst EXCEPT ![Ev.x] = "returned"]
+\* (a refusal for a good reason - the caller's own loop would have to wait for itself, the runtime
+\*  is going down - is an end of the call of its own kind; any other refusal is a call that
+\*  returned without its payload ever having run: ExecOnce)
+GoodRefusal == Ev.why = "same" \/ Triggered \/ phase[1] = "ended"
+TExecRefused == /\ Ev.e = "ExecRefused" /\ xst' = [xst EXCEPT ![Ev.x] = IF GoodRefusal THEN "refused" ELSE "returned"]
                 /\ UNCHANGED <<phase, guard, pst, starts, endhow, cleanleft, adoptret, sigint, shut, result, h, where, xobs, segopen, marks>>
                 \* (or, why = "down": the runtime is terminating / has ended and has no runner left)
                 /\ nc' = (nc \/ xst[Ev.x] # "called" \/ (Ev.why = "down" /\ ~Triggered /\ phase[1] # "ended"))
